@@ -142,6 +142,58 @@ def header_atoms(ck, P):
                   "send_tree does not use all three repeat symbols (found %s)" % sorted(named), where(st))
 
 
+def stored_final_block(ck, P, R="ATOM/stored-final-block"):
+    """A stored block may carry the final-block flag only if it takes everything that is still buffered: in
+    deflate_stored every way the `last` argument of zng_tr_stored_block becomes true requires flush == Finish and an
+    equality between the block length and the bytes left (strstart - block_start, plus avail_in on the direct path).
+    Without the equality a block that is cut short by the pending buffer / output space ends the stream early."""
+    fn = P.fn(Z + "deflate::algorithm::stored::deflate_stored")
+    if not ck.anchor("fn deflate_stored", fn):
+        return
+    ck.use_fn(fn)
+    calls = fn.live_calls(r"deflate::zng_tr_stored_block$")
+    if not ck.anchor("zng_tr_stored_block calls in deflate_stored", len(calls) >= 2, where(fn)):
+        return
+    lasts = [i for i, lc in enumerate(fn.locals) if lc.get("name") == "last" and lc.get("ty") == "bool"]
+    if not ck.anchor("local `last` of deflate_stored", len(lasts) == 1, where(fn)):
+        return
+    last = lasts[0]
+
+    def mentions_left(e):
+        return mir.mentions_field(e, "strstart") and mir.mentions_field(e, "block_start")
+
+    def sources(loc, depth=0):
+        """(block, expr) of every non-false value that can reach local `loc`"""
+        out = []
+        for bi, si, rv in fn.defs.get(loc, []):
+            if bi not in fn.live or rv is None or si == "call":
+                continue
+            if rv.get("k") == "use" and rv["a"].get("k") in ("copy", "move") and not rv["a"].get("p") and depth < 4:
+                out += sources(rv["a"]["l"], depth + 1)
+                continue
+            e = fn.rvalue_expr(rv)
+            if fn.const_of(e) == 0:
+                continue
+            out.append((bi, e))
+        return out
+
+    n = 0
+    for i, (bi, e) in enumerate(sources(last)):
+        n += 1
+        conj = list(fn.dominating_atoms(bi))
+        es = mir.strip_casts(e)
+        finish = any("Finish" in sig.sig(a, fn).names and sig.sig(a, fn).rel in ("Eq", "true") for a in conj) or "Finish" in mir.fmt(es, fn)
+        eq_left = (es[0] == "bin" and es[1] == "Eq" and (mentions_left(es[2]) or mentions_left(es[3]))) or \
+            any(a[0] == "cmp" and a[1] == "Eq" and (mentions_left(a[2]) or mentions_left(a[3])) for a in conj)
+        ck.decide(finish and eq_left, R, "deflate_stored:last#%d" % i,
+                  "true only with flush == Finish and length == bytes left",
+                  "deflate_stored can flag a stored block as the final block without %s: a block shortened by the pending buffer or "
+                  "the output space then ends the stream and the rest of the buffered input is dropped"
+                  % ("the flush == Finish test" if not finish else "comparing its length with the bytes still buffered (strstart - block_start)"),
+                  where(fn, fn.blocks[bi]["s"][0].get("line") if fn.blocks[bi]["s"] else None))
+    ck.floor(R, n, 2)
+
+
 def run(ck):
     P = prog("K1")
     ck.configs.add("K1")
@@ -150,6 +202,7 @@ def run(ck):
     ck.extra["exhaustive"] = True
     header_atoms(ck, P)
     max_dist_guard(ck, P)
+    stored_final_block(ck, P)
     # the gzip header CRC is part of the wrapper: each header byte enters it exactly once
     from . import c20
     c20.header_crc_once(ck, P)
